@@ -173,3 +173,78 @@ Section Top.
     Merge a b out -> exists ds, decide_merge a b ds = Ok (out, []).
   Proof. intro H. apply interleave_complete; auto. Qed.
 End Top.
+
+(* ------------------------------------------------------------------ keyed observation hooks *)
+Section TopKeyed.
+  Context {A K : Type}.
+
+  (* exactly one item [x] of one entry [(k, q)] is taken; every other entry is untouched *)
+  Definition TakesOne (front : bool) (m : list (K * list A)) (rel : list (K * A)) (m' : list (K * list A)) : Prop :=
+    exists m1 k m2 a x b,
+      m = m1 ++ (k, a ++ x :: b) :: m2 /\ rel = [(k, x)] /\ m' = m1 ++ (k, a ++ b) :: m2
+      /\ (front = true -> a = []).
+
+  Lemma take_ne_sound front : forall (m : list (K * list A)) ki ds rel m' rest,
+    take_ne front ki m ds = Ok (rel, m', rest) -> TakesOne front m rel m'.
+  Proof.
+    induction m as [|[k q] m IH]; intros ki ds rel m' rest H; cbn [take_ne] in H; [discriminate|].
+    assert (Hskip : forall ki', bind (take_ne front ki' m ds) (fun '(rel, mr, ds') => Ok (rel, (k, q) :: mr, ds'))
+                                = Ok (rel, m', rest) -> TakesOne front ((k, q) :: m) rel m').
+    { intros ki' H'. inv_bind H' as [[r mr] d']. inversion H'; subst. apply IH in E.
+      destruct E as (m1 & k0 & m2 & a & x & b & -> & -> & -> & Hf).
+      exists ((k, q) :: m1), k0, m2, a, x, b. auto. }
+    destruct (is_nil q); [eapply Hskip; eauto|]. destruct ki as [|ki']; [|eapply Hskip; eauto].
+    inv_bind H as [ii d']. destruct (remove_at ii q) as [[x q']|] eqn:R; [|discriminate].
+    inversion H; subst. apply remove_at_spec in R. destruct R as (a & b & -> & -> & <-).
+    exists [], k, m, a, x, b. repeat split; auto.
+    intros ->. inversion E; subst. destruct a; [reflexivity|discriminate].
+  Qed.
+
+  Theorem top_keyed_sound front force (m : list (K * list A)) ds rel m' rest nt :
+    decide_top_keyed front force m ds = Ok (rel, m', rest, nt) ->
+    (rel = [] /\ m' = m /\ nt = false /\ (force = true -> count_ne m = 0))
+    \/ (nt = true /\ TakesOne front m rel m').
+  Proof.
+    unfold decide_top_keyed. destruct (count_ne m =? 0) eqn:Ec.
+    { intro H. inversion H; subst. left. repeat split; auto. intros _. apply Nat.eqb_eq. exact Ec. }
+    intro H. inv_bind H as [skip d1]. destruct skip.
+    - inversion H; subst. left. repeat (split; [reflexivity|]). intros ->. inversion E.
+    - inv_bind H as [ki d2]. inv_bind H as [[r mr] d3]. inversion H; subst. right. split; auto.
+      eapply take_ne_sound; eauto.
+  Qed.
+
+  Lemma take_ne_complete front : forall (m1 : list (K * list A)) k m2 a x b,
+    (front = true -> a = []) ->
+    exists ds, forall e,
+      take_ne front (count_ne m1) (m1 ++ (k, a ++ x :: b) :: m2) (ds ++ e)
+      = Ok ([(k, x)], m1 ++ (k, a ++ b) :: m2, e).
+  Proof.
+    induction m1 as [|[k1 q1] m1 IH]; intros k m2 a x b Hf.
+    - exists (if front then [] else [length a]). intro e. cbn [take_ne app count_ne filter length].
+      assert (En : is_nil (a ++ x :: b) = false) by (destruct a; reflexivity). rewrite En.
+      destruct front.
+      + rewrite (Hf eq_refl). cbn. reflexivity.
+      + cbn [app]. rewrite ask_excl_complete by (rewrite app_length; cbn; lia). cbn [bind].
+        rewrite remove_at_complete. reflexivity.
+    - destruct (IH k m2 a x b Hf) as (ds & Hds). exists ds. intro e.
+      cbn [app take_ne]. unfold count_ne in *. cbn [filter snd].
+      destruct (is_nil q1); cbn [negb length]; rewrite Hds; reflexivity.
+  Qed.
+
+  Theorem top_keyed_complete front force (m1 : list (K * list A)) k m2 a x b :
+    (front = true -> a = []) ->
+    exists ds, decide_top_keyed front force (m1 ++ (k, a ++ x :: b) :: m2) ds
+               = Ok ([(k, x)], m1 ++ (k, a ++ b) :: m2, [], true).
+  Proof.
+    intro Hf. destruct (take_ne_complete front m1 k m2 a x b Hf) as (ds & Hds).
+    set (m := m1 ++ (k, a ++ x :: b) :: m2).
+    assert (Hlt : count_ne m1 < count_ne m).
+    { unfold m, count_ne. rewrite filter_app, app_length. cbn [filter snd].
+      assert (En : is_nil (a ++ x :: b) = false) by (destruct a; reflexivity). rewrite En. cbn. lia. }
+    assert (Hz : (count_ne m =? 0) = false) by (apply Nat.eqb_neq; lia).
+    exists ((if force then [] else [0]) ++ count_ne m1 :: ds). unfold decide_top_keyed. rewrite Hz.
+    destruct force; cbn [app bind ask_bool ask Nat.leb andb Nat.eqb];
+      rewrite ask_excl_complete by lia; cbn [bind];
+      rewrite <- (app_nil_r ds); unfold m; rewrite Hds; reflexivity.
+  Qed.
+End TopKeyed.
